@@ -24,21 +24,21 @@ claim('C05', 'other',
       'Trusted: into_repr canonical (< 2^381), write_be/read_be 48-byte big-endian, Ord contracts.',
       'known-bits abstract interpretation of encoders/decoders; structural agreement rules', 'DESIGN.md 4.11, 5 C05')
 claim('C08', 'other',
-      'In-repo obligations only: moduli = q(x), r(x) of the BLS parameter; all derive-emitted Montgomery constants equal their definitions; hand-written Montgomery literals (b, -1, generators, 2^256, 2^192) correct and every Fq/Fr literal reduced; only the two unsafe transmute fns wrap raw limbs; ff/ff_derive pinned. The generated limb arithmetic itself (external proc-macro output, numerical) is NOT decided by static analysis of this repository.',
+      'In-repo obligations only: moduli = q(x), r(x) of the BLS parameter; all derive-emitted Montgomery constants equal their definitions; hand-written Montgomery literals correct and every Fq/Fr literal reduced; only the two unsafe transmute fns wrap raw limbs; layering: no hand-written inherent method on Fq/Fr/FqRepr/FrRepr (it would shadow the derive\'s trait methods under method-call syntax) and derive-generated bodies call only generated or external code; ff/ff_derive pinned. The generated limb arithmetic itself (external proc-macro output, numerical) is NOT decided.',
       'Trusted: ff_derive-zeroize 0.6.2 generates correct arithmetic for correct parameters.',
-      'constant-table conformance on const-evaluated values; who-may-construct rule', 'DESIGN.md 4.3, 5 C08')
+      'constant-table conformance on const-evaluated values; who-may-construct and layering (who-may-be-called-from-generated-code) rules', 'DESIGN.md 4.3, 5 C08')
 claim('C13', 'other',
       'Def-use (origin-term) analysis: abort guard is exactly ell > 255 and dominates all hashing; every hash invocation absorbs the RFC 9380 sequence by role (Z_pad typed by BlockSize, msg, I2OSP(len,2), 0, DST_prime; b_0||1; strxor||idx+1; loop 1..ell; truncate); consecutive Length-byte blocks; from_okm = hi*2^(8L/2)+lo with the constant value-checked, for Fq and Fr (sibling agreement); Fq2 = (block0, block1). Byte-exact digest output is not decided.',
       'Trusted: digest/generic-array/ff contracts. A re-architected equivalent implementation would be reported as unrecognised (fail closed).',
       'def-use / origin-term matching over MIR, dominators, constant checks', 'DESIGN.md 4.2, 5 C13')
 claim('C15', 'other',
-      'EXP abstract interpretation of the SSWU helper, both addition chains and both osswu_map bodies (2+9 paths) + arithmetic on extracted constants: RFC Z/A\'/B\' in position; chain exponents; candidate shape makes cand^2 v/u a 2nd/8th root of unity; G2 multiplier tables complete => a trial always matches (terminal panic infeasible); returned point is x0 or x1 under a path condition implying y^2 = g(x); x0 first; exceptional denominator; sign fixed with sgn0(y_affine)^sgn0(t). Polynomial values of g are not decided (sums are opaque atoms).',
+      'EXP / sum-of-monomials abstract interpretation of the SSWU helper, both addition chains and both osswu_map bodies (2+9 paths) + arithmetic on extracted constants: RFC Z/A\'/B\' in position; helper computes x0 = B(1+s)/(-A s), s = xi^2 t^4 + xi t^2 (exceptional s = 0: denominator A xi) and g(x0) = (N^3 + A N D^2 + B D^3)/D^3; chain exponents (q-3)/4, (q^2-9)/16; candidate shape makes cand^2 v/u a 2nd/8th root of unity; G2 multiplier tables complete => a trial always matches (terminal panic infeasible); returned point is x0 or x1 = xi t^2 x0 under a path condition implying y^2 = g(x); x0 first; sign fixed with sgn0(y_affine)^sgn0(t).',
       'Trusted: field operation contracts, sgn0/negate_if (C18), Euler criterion.',
-      'abstract interpretation (exponent-vector domain with opaque atoms) over MIR incl. table loops; constant-table arithmetic', 'DESIGN.md 4.4, 5 C15')
+      'abstract interpretation (exponent-vector and sum-of-monomials domains) over MIR incl. table loops; constant-table arithmetic', 'DESIGN.md 4.4, 5 C15')
 claim('C16', 'other',
-      'Tables decided, evaluator not: the four coefficient tables of each group satisfy the polynomial identity that makes (XNUM/XDEN, y YNUM/YDEN) a normalised degree-11 / degree-3 rational map from E\' (with the A\', B\' SSWU uses) to the target curve, hence an isogeny (image on curve, identity and kernel to identity, homomorphism); own tables in order; scratch sizes cover table lengths. That the projective Horner code evaluates these polynomials is a polynomial identity of code: not decided.',
-      'Trusted: rational maps between elliptic curves fixing infinity are homomorphisms.',
-      'arithmetic on const-evaluated tables (polynomial identity over Fq / Fq2); wiring rules', 'DESIGN.md 4.3, 5 C16')
+      'Decided: (1) tables: the four coefficient tables of each group satisfy the polynomial identity that makes (XNUM/XDEN, y YNUM/YDEN) a normalised degree-11 / degree-3 rational map from E\' (with the A\', B\' SSWU uses) to the target curve, hence an isogeny (image on the curve, identity and kernel to identity, homomorphism); (2) evaluator: abstract interpretation of eval_iso in the sum-of-monomials domain proves, on every path and for both groups, X/Z^2 = XNUM(x/z^2)/XDEN(x/z^2) and Y/Z^3 = (y/z^3) YNUM(x/z^2)/YDEN(x/z^2) as homogenised sums over the table coefficients, for every Jacobian representative; own tables in order; scratch sizes. Not decided: which of the finitely many isogenies of that degree it is (pinned by the repository\'s vectors).',
+      'Trusted: rational maps between elliptic curves fixing infinity are homomorphisms; Fq/Fq2 operation contracts.',
+      'arithmetic on const-evaluated tables (polynomial identity); abstract interpretation in a sum-of-monomials domain (products of two sums interned, never expanded)', 'DESIGN.md 4.3, 5 C16')
 claim('C18', 'other',
       'EXP interpretation of Fq2::sqrt (all four cases of Alg. 9 with exact exponents and the -1 tests), legendre via the norm, known-bits proof that Fq::sgn0 reads bit 0 of the canonical representation, Fq2::sgn0 selection, negate_if polarity, lexicographic Ord for Fq2 with c1 most significant, 2-adic constants. Correctness of Alg. 9 and of the derive-generated Fq/Fr sqrt, legendre, Ord is cited/external, not decided.',
       'Trusted: ff derive; Alg. 9 (eprint 2012/685).',
@@ -68,9 +68,9 @@ claim('C07', 'other',
       'Trusted: group law closed on the subgroup.',
       'who-may-call / who-may-construct tables over resolved MIR, typestate, exponent domain, constant audit', 'DESIGN.md 4.2, 4.5, 5 C07, 6')
 claim('C10', 'other',
-      'Narrow: window heuristic in 1..=16 with monotone table (all paths); default entry = bucket method with find_pippinger_window(min lengths); every component loop bounded by the minimum length; bucket accumulations only under bucket_index > 0; the table-driven variant proved = sum_j [k_j]P_j for list lengths up to 3 (incl. mismatched) and ALL scalar values; precomp_256 establishes its table contract from any buffer. The bucket method\'s digit extraction / running-sum reduction / inter-window doublings have data-dependent indices and bounds: not decided.',
+      'Decided for the bucket method: digit extraction and inter-window doublings for EVERY window size 1..=20 and all scalar bits (each window\'s digit is a consecutive bit field of the scalar followed by exactly as many doublings as bit positions below it, paired with its own point; bit 255 used or asserted clear); the per-window running-sum reduction (res += sum_i i*B_i, buckets reset) for max_bucket <= 5 and all bucket contents on every path; bucket accumulation only under index > 0; component loops bounded by the minimum length; window heuristic in 1..=16 with monotone table; default entry wiring. Table-driven variant proved = sum_j [k_j]P_j for list lengths up to 3 (incl. mismatched) and all scalars; precomp_256 establishes its contract from any buffer. Composition of these facts gives sum_i [k_i]P_i; the reduction loop is only checked for max_bucket <= 5 and the component loop for <= 2 components (uniform loops, no induction attempted).',
       'Trusted: group-operation contracts.',
-      'range/constant rules, def-use loop-bound rule, bit-provenance + linear-form abstract interpretation for bounded lengths', 'DESIGN.md 4.10, 5 C10')
+      'bit-provenance + linear-form abstract interpretation with region summaries and bounded structural parameters; range/constant and def-use rules', 'DESIGN.md 4.10, 5 C10')
 claim('C11', 'other',
       'Narrow: same Miller-loop scenario analysis as C03 (identity pairs contribute 1 at any position for 0..2 pairs, per-pair coefficient consumption, shared squarings), product helpers pair p[i] with q[i] and exponentiate once, prepared elements immutable (Freeze, private fields, no &mut API). Product-of-pairings as a value statement is numerical: not decided.',
       'Trusted: line-function and Fq12 contracts; C12.',
